@@ -810,10 +810,10 @@ func (g *Group) Range(f func(c Client) bool) {
 }
 
 func kickall(g *Group, message string) {
-	g.Range(func(c Client) bool {
+	// don't hold the group's lock, Kick might need it
+	for _, c := range g.GetClients(nil) {
 		c.Kick("", nil, message)
-		return true
-	})
+	}
 }
 
 func Shutdown(message string) {
